@@ -164,6 +164,11 @@ def create_nxgraph(net, include_pipes=True, respect_status_pipes=True,
 def add_branch_component(comp, mg, net, table_name, include_comp, respect_status, weight_getter, valve_et_filter):
     tab = get_edge_table(net, table_name, include_comp)
 
+    if tab is not None and table_name == "valve" and "et" in tab:
+        # a valve attached to a pipe (et='pi') is no edge of its own: its "element" is a pipe index,
+        # not a junction
+        tab = tab[tab["et"].values != "pi"]
+
     if tab is not None:
         in_service_name = comp.active_identifier()
         from_col, to_col = comp.from_to_node_cols()
